@@ -311,6 +311,180 @@ fn batch_json(b: &BatchStats) -> Value {
     })
 }
 
+/// Where does the tree under test differ from the commit the hooks were verified at? Used only to direct part
+/// of the search (function-themed runs) at the code that changed; no diff, or no git, means no direction.
+pub struct ChangeHints {
+    pub base: String,
+    pub files: Vec<String>,
+    pub evs: Vec<Ev>,
+    pub tokens: Vec<String>,
+}
+
+fn variant_tokens(v: &str) -> &'static [&'static str] {
+    match v {
+        "Add" => &["+"],
+        "Subtract" | "Negative" => &["-"],
+        "Multiply" => &["*"],
+        "Divide" => &["/"],
+        "Modulo" | "Mod" => &["%", "mod("],
+        "Pow" | "Caret" => &["^", "pow(", "SUPERSCRIPT"],
+        "Superscript" => &["SUPERSCRIPT"],
+        "Root" => &["root("],
+        "Log" => &["log("],
+        "ILog" => &["ilog("],
+        "Lb" => &["lb("],
+        "Ln" => &["ln("],
+        "Exp" => &["exp("],
+        "Exp2" => &["exp2("],
+        "Sqrt" => &["sqrt("],
+        "Abs" => &["abs("],
+        "Floor" | "LeftFloor" | "RightFloor" => &["floor(", "⌊"],
+        "Ceil" | "LeftCeiling" | "RightCeiling" => &["ceil(", "⌈"],
+        "Round" => &["round("],
+        "Truncate" => &["trunc(", "truncate("],
+        "Sign" => &["sgn(", "sign(", "signum("],
+        "Sin" => &["sin("],
+        "Cos" => &["cos("],
+        "Tan" => &["tan("],
+        "Asin" => &["asin("],
+        "Acos" => &["acos("],
+        "Atan" => &["atan("],
+        "Sinh" => &["sinh("],
+        "Cosh" => &["cosh("],
+        "Tanh" => &["tanh("],
+        "Arsinh" => &["asinh(", "arsinh("],
+        "Arcosh" => &["acosh(", "arcosh("],
+        "Artanh" => &["atanh(", "artanh("],
+        "Atan2" => &["atan2("],
+        "LambertW" => &["w(", "lambert_w("],
+        "Factorial" | "ExclamationMark" => &["!"],
+        "Min" => &["min("],
+        "Max" => &["max("],
+        "Avg" => &["avg("],
+        "Med" => &["med(", "median("],
+        "Gcd" => &["gcd("],
+        "Lcm" => &["lcm("],
+        "LeftShift" => &["<<"],
+        "RightShift" => &[">>"],
+        "BitwiseAnd" | "And" => &["&"],
+        "BitwiseOr" | "Or" => &["|"],
+        "DegToRad" => &["°"],
+        "RadToDeg" => &["rad"],
+        "Pi" => &["π", "pi"],
+        "Ans" => &["@"],
+        "Num" => &["LITERAL."],
+        _ => &[],
+    }
+}
+
+pub fn change_hints(repo: &str, verif: &str) -> ChangeHints {
+    let mut h = ChangeHints { base: String::new(), files: Vec::new(), evs: Vec::new(), tokens: Vec::new() };
+    // base commit: the hook commit recorded in MANIFEST.json, else HEAD
+    let base = std::fs::read_to_string(format!("{}/MANIFEST.json", verif))
+        .ok()
+        .and_then(|s| serde_json::from_str::<Value>(&s).ok())
+        .and_then(|v| v["hooks"]["source_commits"].as_array().and_then(|a| a.last().and_then(|x| x.as_str().map(|y| y.to_string()))))
+        .unwrap_or_else(|| "HEAD".to_string());
+    let run = |base: &str| -> Option<String> {
+        let out = std::process::Command::new("git")
+            .args(["-C", repo, "diff", "-U14", "--no-color", "--no-ext-diff", base, "--", "src", "Cargo.toml"])
+            .stdin(std::process::Stdio::null())
+            .stderr(std::process::Stdio::null())
+            .output()
+            .ok()?;
+        if !out.status.success() {
+            return None;
+        }
+        Some(String::from_utf8_lossy(&out.stdout).to_string())
+    };
+    let (diff, used) = match run(&base) {
+        Some(d) => (d, base),
+        None => match run("HEAD") {
+            Some(d) => (d, "HEAD".to_string()),
+            None => return h,
+        },
+    };
+    h.base = used;
+    // untracked new files do not show in `git diff`: list them too
+    if let Ok(out) = std::process::Command::new("git").args(["-C", repo, "ls-files", "--others", "--exclude-standard", "--", "src"]).stderr(std::process::Stdio::null()).output() {
+        for l in String::from_utf8_lossy(&out.stdout).lines() {
+            h.files.push(l.to_string());
+        }
+    }
+    let mut toks: BTreeSet<String> = BTreeSet::new();
+    let mut evs: BTreeSet<Ev> = BTreeSet::new();
+    let mut in_changed_hunk_lines: Vec<&str> = Vec::new();
+    for l in diff.lines() {
+        if let Some(f) = l.strip_prefix("+++ b/") {
+            h.files.push(f.to_string());
+            continue;
+        }
+        if l.starts_with("--- ") || l.starts_with("diff ") || l.starts_with("index ") {
+            continue;
+        }
+        in_changed_hunk_lines.push(l);
+    }
+    h.files.sort();
+    h.files.dedup();
+    for f in &h.files {
+        for (d, e) in [("eval_f64", Ev::F64), ("eval_i64", Ev::I64), ("eval_decimal", Ev::Dec), ("eval_complex", Ev::Cx), ("eval_number", Ev::Num)] {
+            if f.contains(d) {
+                evs.insert(e);
+            }
+        }
+        if f.contains("superscript") {
+            toks.insert("SUPERSCRIPT".into());
+        }
+    }
+    // identifiers that name AST nodes / tokens: on the changed lines themselves, and on the head of the
+    // match arm that encloses a run of changed lines (the nearest preceding line with `=>`)
+    let idents = |body: &str, toks: &mut BTreeSet<String>| {
+        let mut word = String::new();
+        for ch in body.chars().chain(std::iter::once(' ')) {
+            if ch.is_ascii_alphanumeric() || ch == '_' {
+                word.push(ch);
+            } else {
+                if !word.is_empty() && word.chars().next().map_or(false, |c| c.is_ascii_uppercase()) {
+                    for x in variant_tokens(&word) {
+                        toks.insert(x.to_string());
+                    }
+                }
+                word.clear();
+            }
+        }
+    };
+    let mut last_arm: Option<&str> = None;
+    let mut prev_changed = false;
+    for l in in_changed_hunk_lines {
+        if l.starts_with("@@") {
+            last_arm = None;
+            prev_changed = false;
+            continue;
+        }
+        let changed = l.starts_with('+') || l.starts_with('-');
+        let body = if l.is_empty() { l } else { &l[1..] };
+        if changed {
+            if !prev_changed {
+                if let Some(arm) = last_arm {
+                    idents(arm, &mut toks);
+                }
+            }
+            idents(body, &mut toks);
+            if body.contains("is_ascii_digit") {
+                toks.insert("LITERAL.".into());
+            }
+        }
+        if body.contains("=>") {
+            last_arm = Some(body);
+        }
+        prev_changed = changed;
+    }
+    h.evs = evs.into_iter().collect();
+    // too many tokens means the change is not local: no token direction
+    h.tokens = if toks.len() > 12 { Vec::new() } else { toks.into_iter().collect() };
+    h
+}
+
 pub struct CheckOpts {
     pub tier: String,
     pub seed: u64,
@@ -470,7 +644,23 @@ pub fn check(o: &CheckOpts) -> i32 {
     // ---- pool and oracle
     let cand = gen::build_pool(o.seed, &o.repo, &t.sizes);
     let (mut pool, ost): (Pool, OracleStats) = oracle::oracle_pass(cand, w, t.recheck_every);
-    let ix = workload::index_pool(&mut pool);
+    let mut ix = workload::index_pool(&mut pool);
+    let hints = change_hints(&o.repo, &o.verif);
+    if !hints.files.is_empty() {
+        ix.hint_evs = hints.evs.clone();
+        for (bi, (ev, tok, _)) in ix.fn_buckets.iter().enumerate() {
+            let ev_ok = hints.evs.is_empty() || hints.evs.iter().any(|e| *e as u8 == *ev);
+            let tok_ok = hints.tokens.is_empty() || hints.tokens.iter().any(|t| t == tok);
+            if ev_ok && tok_ok && !(hints.evs.is_empty() && hints.tokens.is_empty()) {
+                ix.hint_buckets.push(bi);
+            }
+        }
+        println!(
+            "change focus: tree differs from {} in {:?}; evaluators {:?}, tokens {:?} -> {} of {} function buckets preferred",
+            hints.base.chars().take(10).collect::<String>(), hints.files, hints.evs.iter().map(|e| e.name()).collect::<Vec<_>>(), hints.tokens, ix.hint_buckets.len(), ix.fn_buckets.len()
+        );
+    }
+    let ix = ix;
     println!(
         "pool: {} candidates -> {} kept (ok {}, err {}, panic {}); dropped: step_cap {}, signal {}, timeout {}, broken {}; placeholder-sensitive expressions {}; texts shared by evaluators {}",
         ost.candidates, ost.kept, ost.ok, ost.err, ost.panic, ost.dropped_stepcap, ost.dropped_signal, ost.dropped_timeout,
@@ -781,6 +971,10 @@ pub fn check(o: &CheckOpts) -> i32 {
             "uncontrolled_sources": audit,
             "ambient_recheck": {"ran": amb.ran, "reason": amb.reason, "calls": amb.calls, "compared": amb.compared, "mismatches": amb.mismatches.len(),
                                 "perturbed": ["address-space layout (fresh exec, ASLR)", "pid", "wall-clock time", "environment variables (cleared and scrambled: TZ, LANG, LC_ALL, HOME, PATH, TMPDIR, RUST_BACKTRACE, RUST_MIN_STACK)", "working directory"]},
+            "change_focus": {"base": hints.base, "files_differing": hints.files, "evaluators": hints.evs.iter().map(|e| e.name()).collect::<Vec<_>>(), "tokens": hints.tokens,
+                             "function_buckets": ix.fn_buckets.len(), "preferred_buckets": ix.hint_buckets.len(),
+                             "note": "direction only: 70% of the function-themed runs (40% of short/wide runs are themed) draw their theme from the preferred buckets; on an unchanged tree there is no diff and no direction"},
+            "granularity": if crate::tick::bb_guards() > 0 { format!("basic_block ({} instrumented block edges in the library crates) + source ticks", crate::tick::bb_guards()) } else { "source ticks only (block instrumentation not available)".to_string() },
             "raw_violating_runs": raw_violations,
             "miri_pass": mo.as_ref().map(|m| m.to_json()).unwrap_or(json!({"ran": false, "reason": "disabled by VERIF_NO_MIRI"})),
             "replay_files": findings.iter().map(|f| json!({"file": f.file, "evaluator": f.class.0, "kind": f.class.1, "known": f.known, "replay_confidence": f.confidence})).collect::<Vec<_>>(),
@@ -922,7 +1116,7 @@ pub fn selftest(o: &CheckOpts, seeds: usize) -> i32 {
     let mut bad = 0;
     for (stream, kind, n) in [(21u64, RunKind::Short, seeds), (22, RunKind::Wide, seeds / 10), (23, RunKind::Long { calls: 500 }, 32)] {
         let a = run_batch("a", &pool, &ix, o.seed, stream, kind, n, o.workers, tmo, None, true, usize::MAX, u32::MAX, false);
-        let b = run_batch("b", &pool, &ix, o.seed, stream, kind, n, 5, tmo, None, true, 0, u32::MAX, false);
+        let b = run_batch("b", &pool, &ix, o.seed, stream, kind, n, 5, tmo, None, true, usize::MAX, u32::MAX, false);
         let c = run_batch("c", &pool, &ix, o.seed, stream, kind, n / 10, 1, tmo, None, true, 0, u32::MAX, false);
         let mut cmp = 0;
         let mut mism = 0;
@@ -932,6 +1126,15 @@ pub fn selftest(o: &CheckOpts, seeds: usize) -> i32 {
                     cmp += 1;
                     if h != h2 {
                         mism += 1;
+                        if mism <= 6 {
+                            let pn = a.traces.iter().find(|(k, _)| k == i).and_then(|(_, r)| r.get("pn").cloned());
+                            println!("  determinism mismatch: run {} policy {:?}", i, pn);
+                            for bb in [&a, &b] {
+                                if let Some((_, r)) = bb.traces.iter().find(|(k, _)| k == i) {
+                                    println!("    sw={} shh={} fw={} ticks={} switches={}", r["sw"], r["shh"], r["fw"], r["ticks"], r["switches"].to_string().chars().take(400).collect::<String>());
+                                }
+                            }
+                        }
                     }
                 }
             }
@@ -956,8 +1159,8 @@ pub fn selftest(o: &CheckOpts, seeds: usize) -> i32 {
             let h = r.as_ref().map(|r| r.hash()).unwrap_or_default();
             if h != want[k] {
                 rm += 1;
-                if rm <= 3 {
-                    println!("  replay mismatch: case {} want {} got {} status {:?}", k, want[k], h, r.as_ref().map(|r| r.status.clone()));
+                if rm <= 6 {
+                    println!("  replay mismatch: case {} want {} got {} status {:?} policy {:?}", k, want[k], h, r.as_ref().map(|r| r.status.clone()), a.traces.get(k).and_then(|(_, r)| r.get("pn").cloned()));
                 }
             }
         }
@@ -975,3 +1178,54 @@ pub fn selftest(o: &CheckOpts, seeds: usize) -> i32 {
 
 #[allow(dead_code)]
 pub fn unused(_: Exit) {}
+
+/// debugging aid: run one seed of the selftest's short stream `reps` times from this process and print the records
+pub fn debug_seed(o: &CheckOpts, stream: u64, idx: usize, reps: usize, pad: usize) -> i32 {
+    let t = tier("quick");
+    let cand = gen::build_pool(o.seed, &o.repo, &t.sizes);
+    let (mut pool, _ost) = oracle::oracle_pass(cand, o.workers, 0);
+    let ix = workload::index_pool(&mut pool);
+    // vary the parent's allocation history
+    let _padding: Vec<Vec<u8>> = (0..pad).map(|i| vec![0u8; 1000 + i * 37]).collect();
+    for _ in 0..reps {
+        let mut spec = workload::make_spec(&pool, &ix, seed_for(o.seed, stream, idx), RunKind::Short, true);
+        spec.want_trace = true;
+        let (bytes, exit) = proc::run_item(|| sim::run_child(&pool, &spec), Duration::from_secs(5));
+        let r = classify(&bytes, exit);
+        println!("{} {} h={} sw={} shh={} fw={} ticks={} switches={}", spec.policy.name(), r.status, r.hash(), r.rec["sw"], r.rec["shh"], r.rec["fw"], r.rec["ticks"], r.rec["switches"].to_string().chars().take(300).collect::<String>());
+    }
+    0
+}
+
+/// debugging aid: the pool is exactly the calls of a file (JSON lines as in replay files); run `n` short runs
+pub fn hunt(o: &CheckOpts, file: &str, n: usize) -> i32 {
+    let text = std::fs::read_to_string(file).unwrap_or_default();
+    let mut cand = Pool::default();
+    for l in text.lines() {
+        if let Some(c) = serde_json::from_str::<Value>(l).ok().and_then(|v| Call::from_json(&v)) {
+            let id = match cand.by_expr.iter().position(|es| {
+                let e = &cand.entries[es[0] as usize];
+                e.call.ev == c.ev && e.call.expr == c.expr
+            }) {
+                Some(i) => i,
+                None => {
+                    cand.by_expr.push(Vec::new());
+                    cand.by_expr.len() - 1
+                }
+            };
+            cand.by_expr[id].push(cand.entries.len() as u32);
+            cand.by_text.entry(c.expr.clone()).or_default().push(id as u32);
+            cand.entries.push(gen::Entry { call: c, expr_id: id as u32, origin: "file", oracle: Outcome::Panic(String::new()), ticks: 0, trace: 0, sensitive: false, text_id: 0 });
+        }
+    }
+    let (mut pool, ost) = oracle::oracle_pass(cand, o.workers, 0);
+    let ix = workload::index_pool(&mut pool);
+    println!("hunt: {} calls kept of {}", ost.kept, ost.candidates);
+    let b = run_batch("hunt", &pool, &ix, o.seed, 31, RunKind::Short, n, o.workers, Duration::from_millis(1500), None, false, 0, 3, false);
+    println!("{}", batch_json(&b));
+    for (i, rec) in b.violations.iter().take(3) {
+        println!("violation in run {}: policy {} {}", i, rec["pn"], rec["violation"]);
+        println!("  switches {}", rec["switches"]);
+    }
+    if b.violations.is_empty() { 0 } else { 1 }
+}
